@@ -79,6 +79,15 @@ Proof.
   all: try (destruct (Hhd H H0) as [A B]; split; auto; intro j; rewrite Ho; auto).
 Qed.
 
+Lemma is_c2_rl : forall pc, is_c2 pc = true -> wk_rl pc = true.
+Proof. destruct pc; simpl; congruence. Qed.
+Lemma is_sc_rl : forall pc, is_sc pc = true -> wk_rl pc = true.
+Proof. destruct pc; simpl; congruence. Qed.
+Lemma handing_rl : forall i, io_handing i = true -> io_rl (ipc i) = true.
+Proof. intros [pc ? ? ? ? ? ?]; unfold io_handing; simpl. destruct pc; try congruence; auto. Qed.
+Lemma atacq_rl : forall pc, is_atacq pc = true -> io_rl pc = true.
+Proof. destruct pc; simpl; try congruence. Qed.
+
 Section Step.
 Variable P : params.
 
@@ -119,15 +128,82 @@ Ltac rew_pcs :=
 
 Ltac slv := solve [ intuition (eauto; try discriminate; try congruence; try lia) ].
 
-Ltac fin :=
+(* forward chaining: discharge premises that are immediate *)
+Ltac fwd :=
+  repeat match goal with
+  | H : ?A -> _ |- _ =>
+      match type of A with
+      | Prop => let HA := fresh in
+                assert (HA : A) by (first [ assumption | reflexivity | lia | discriminate | congruence ]);
+                specialize (H HA); clear HA
+      end
+  end.
+
+Ltac owner_contra :=
+  repeat match goal with
+  | H : ?x <> ?x |- _ => exfalso; apply H; reflexivity
+  | Hx : forall j : nat, wk_owner (wpc (?w j)) = false, Hw : ?w ?me = _ |- _ =>
+      let X := fresh in pose proof (Hx me) as X; rewrite Hw in X; discriminate X
+  | Hx : forall j : nat, wk_owner (wpc (?w j)) = false, H : wk_owner (wpc (?w ?k)) = true |- _ =>
+      rewrite (Hx k) in H; discriminate H
+  | Hx : forall j : nat, j <> ?me -> wk_owner (wpc (?w j)) = false, H : wk_owner (wpc (?w ?k)) = true, N : ?k <> ?me |- _ =>
+      rewrite (Hx k N) in H; discriminate H
+  end.
+
+Definition rlmark (b : bool) := True.
+
+(* program-point facts: who must hold requests_lock *)
+Ltac pc_facts :=
+  repeat match goal with
+  | H : is_c2 (wpc ?x) = true |- _ =>
+      lazymatch goal with _ : wk_rl (wpc x) = true |- _ => fail | _ => pose proof (is_c2_rl _ H) end
+  | H : is_sc (wpc ?x) = true |- _ =>
+      lazymatch goal with _ : wk_rl (wpc x) = true |- _ => fail | _ => pose proof (is_sc_rl _ H) end
+  | H : postpop (wpc ?x) = true |- _ =>
+      lazymatch goal with _ : wk_rl (wpc x) = true |- _ => fail | _ => pose proof (postpop_rl _ H) end
+  | H : io_handing ?i = true |- _ =>
+      lazymatch goal with _ : io_rl (ipc i) = true |- _ => fail | _ => pose proof (handing_rl _ H) end
+  | H : is_atacq ?pc = true |- _ =>
+      lazymatch goal with _ : io_rl pc = true |- _ => fail | _ => pose proof (atacq_rl _ H) end
+  end.
+
+Ltac iff_fwd :=
+  repeat match goal with
+  | H : ?A <-> ?B |- _ =>
+      first [ let HB := fresh in assert (HB : B) by (first [assumption | reflexivity]); apply (proj2 H) in HB; clear H
+            | let HA := fresh in assert (HA : A) by (first [assumption | reflexivity]); apply (proj1 H) in HA; clear H
+            | match B with
+              | false = true => let HN := fresh in assert (HN : ~ A) by (let X := fresh in intro X; apply (proj1 H) in X; discriminate X); clear H
+              end ]
+  end.
+
+Ltac fin0 :=
   bool_hyps; cbn in *; list_simp;
   try solve [ eauto ];
+  try slv.
+
+Ltac uniq_goal :=
+  try match goal with
+  | |- wk_owner (wpc (?w ?j)) = false => destruct (wk_owner (wpc (w j))) eqn:?; [exfalso|reflexivity]
+  end;
+  try match goal with
+  | Hu : forall k, true = true -> wk_owner (wpc (?w k)) = true -> ?me = k,
+    X : wk_owner (wpc (?w ?j)) = true, N : ?j <> ?me |- _ =>
+      exfalso; apply N; symmetry; apply Hu; [reflexivity|exact X]
+  end.
+
+Ltac fin1 :=
+  pc_facts; inst_locks; rew_pcs; cbn in *; iff_fwd; fwd; owner_contra; list_simp;
+  try solve [ eauto ];
   try slv;
-  inst_locks; rew_pcs; cbn in *;
-  try slv;
-  try (match goal with
-       | s : shared |- _ => destruct (requests s) eqn:?; cbn in *; list_simp; slv
-       end).
+  uniq_goal.
+
+Ltac fin :=
+  fin0;
+  match goal with
+  | s : shared |- _ =>
+      destruct (queue s) as [|[|?]] eqn:?; destruct (requests s) as [|? [|? ?]] eqn:?; fin1
+  end.
 
 Lemma upd_forall_elim : forall (Q : wkst -> Prop) w me x,
   (forall j, Q (upd w me x j)) -> Q x /\ forall j, j <> me -> Q (w j).
@@ -167,8 +243,6 @@ Proof.
     all: destruct HL1 as [Hu Hq Hqo Hqr Hor Hcv Hc2 Hsc Hat Hh]; l0_facts HL0; cbn [sh io wk ipc] in *.
     all: split; cbn [sh io wk ipc io_handing is_atacq]; intros.
     all: fin.
-    all: match goal with |- ?G => idtac "IOGOAL" G end; repeat match goal with H : ?T |- _ => match T with params => fail 1 | shared => fail 1 | nat => fail 1 | bool => fail 1 | _ => idtac "   " H ":" T; revert H end end.
-    all: admit.
   - step_wk Hs; cbn [sh io wk ipc] in *.
     all: try (frame_wk HL1 me Hw).
     all: destruct HL1 as [Hu Hq Hqo Hqr Hor Hcv Hc2 Hsc Hat Hh].
@@ -180,7 +254,5 @@ Proof.
     all: split; cbn [sh io wk ipc io_handing is_atacq]; intros.
     all: upd_hyps; upd_goal me.
     all: fin.
-    all: match goal with |- ?G => idtac "WKGOAL" G end; repeat match goal with H : ?T |- _ => match T with params => fail 1 | shared => fail 1 | nat => fail 1 | bool => fail 1 | _ => idtac "   " H ":" T; revert H end end.
-    all: admit.
-Admitted.
+Qed.
 End Step.
